@@ -825,8 +825,8 @@ def stress_parallel_creates(ctx):
     """free-running parallel jobs whose tasks create / destroy / assign concurrently from every dispatcher thread:
     thousands of deferred creations reserve ids at the same time (C01, C05, C06)"""
     out = []
-    for k in range(4 if ctx.thorough else 1):
-        n = (6000 if ctx.thorough else 2400) + 4 * k
+    for k in range(3 if ctx.thorough else 1):
+        n = 2400 + 4 * k          # the list-based model is quadratic in the population: keep it where a file takes ~1 minute
         lines = ["threads %d" % (8 if k % 2 == 0 else 3)]
         lines += ["create A"] * n
         tok = 100000
